@@ -17,10 +17,18 @@ CONSTANTS Fams,                 \* family names explored by this configuration
           DEV_CopyMisMaps,      \* deepcopy keeps the id(polygon) -> lanelet id map of the ORIGINAL: wrong ids
           DEV_PickleNoRebuild,  \* __setstate__ without _create_strtree: nothing is indexed
           DEV_AddRebuildsFirst, \* add_lanelet rebuilds the tree BEFORE inserting: the last lanelet is missing
+          DEV_DeferredRemoveKeepsPolygon, \* remove_lanelet(id, rtree=False) leaves the polygon in the dictionary the index is
+                                \* rebuilt from: the next rebuild resurrects the removed lanelet (seeded change C06-2)
           DEV_DiscHalfRadius    \* lookups by shape use the exported disc of radius r/2 (Circle.shapely_object = buffer(radius / 2))
 
-VARIABLES fam, polys, index, mode, hist
-vars == <<fam, polys, index, mode, hist>>
+VARIABLES fam,    \* the family under construction
+          polys,  \* lanelet id -> ring: the truth
+          buf,    \* lanelet id -> ring: the dictionary the index is REBUILT from (_buffered_polygons)
+          index,  \* lanelet id -> ring: the snapshot the lookups consult
+          mode,   \* "new" | "add_each" | "add_defer" | "ready"
+          dirty,  \* a deferred step (rtree=False) happened since the last rebuild: the index may be stale (band B3)
+          hist    \* the route sequence
+vars == <<fam, polys, buf, index, mode, dirty, hist>>
 
 Rt(r, a) == [r |-> r, a |-> a]
 Empty    == [i \in {} |-> <<>>]
@@ -30,6 +38,7 @@ Order(f)  == [k \in DOMAIN FamNet(f) |-> FamNet(f)[k].id]                    \* 
 Ext(g, i, v) == [j \in DOMAIN g \cup {i} |-> IF j = i THEN v ELSE g[j]]
 Restrict(g, S) == [j \in S |-> g[j]]
 MoveFn(m, g) == [j \in DOMAIN g |-> MoveRing(m, g[j])]
+Over(g, h) == [j \in DOMAIN g \cup DOMAIN h |-> IF j \in DOMAIN h THEN h[j] ELSE g[j]]    \* g overwritten by h
 (* wrong ids: every polygon is reported under the id of its cyclic successor *)
 Shift(g) == LET ids == SX!SetToSortSeq(DOMAIN g, <) n == Len(ids) IN
             [j \in DOMAIN g |-> g[ids[((CHOOSE k \in 1..n : ids[k] = j) % n) + 1]]]
@@ -41,49 +50,80 @@ Cuts    == <<RectS(<<2, 2>>, 2, 2, Id),                                        \
              [k |-> "poly", v |-> <<<<4, 0>>, <<12, 0>>, <<12, 8>>>>],          \* triangle below the diagonal (2,0)-(6,4)
              [k |-> "disc", c |-> <<4, -3>>, r |-> 4]>>                         \* radius 2 around (2,-1.5): reaches y = 0 at 0.75 r
 
-Init == fam \in Fams /\ polys = Empty /\ index = Empty /\ mode = "new" /\ hist = <<>>
+Init == fam \in Fams /\ polys = Empty /\ buf = Empty /\ index = Empty /\ mode = "new" /\ dirty = FALSE /\ hist = <<>>
 
-Ready(h) == mode' = "ready" /\ hist' = h
-FromList(c)    == mode = "new" /\ polys' = Target(fam) /\ index' = polys' /\ Ready(<<Rt("from_list", <<c>>)>>) /\ UNCHANGED fam
-AddFromNet     == mode = "new" /\ polys' = Target(fam) /\ index' = polys' /\ Ready(<<Rt("add_from_network", <<>>)>>) /\ UNCHANGED fam
-ViaScenario    == mode = "new" /\ polys' = Target(fam) /\ index' = polys' /\ Ready(<<Rt("scenario_add", <<>>)>>) /\ UNCHANGED fam
+(* a freshly built network: bookkeeping and index are made from the lanelets handed over *)
+Fresh(p)  == polys' = p /\ buf' = p /\ index' = p /\ dirty' = FALSE
+Ready(h)  == mode' = "ready" /\ hist' = h
+FromList(c)    == mode = "new" /\ Fresh(Target(fam)) /\ Ready(<<Rt("from_list", <<c>>)>>) /\ UNCHANGED fam
+AddFromNet     == mode = "new" /\ Fresh(Target(fam)) /\ Ready(<<Rt("add_from_network", <<>>)>>) /\ UNCHANGED fam
+ViaScenario    == mode = "new" /\ Fresh(Target(fam)) /\ Ready(<<Rt("scenario_add", <<>>)>>) /\ UNCHANGED fam
 (* lanelet by lanelet: add_lanelet(l, rtree) ; "add_each": always rtree=True ; "add_defer": rtree=False except for the last one *)
-StartAdd(b)    == mode = "new" /\ mode' = b /\ UNCHANGED <<fam, polys, index, hist>>
+StartAdd(b)    == mode = "new" /\ mode' = b /\ UNCHANGED <<fam, polys, buf, index, dirty, hist>>
 AddLanelet     == /\ mode \in {"add_each", "add_defer"}
                   /\ LET ord == Order(fam)  k == Cardinality(DOMAIN polys) + 1  i == ord[k]
                          last == k = Len(ord)
                          rtree == mode = "add_each" \/ last
                          np == Ext(polys, i, TruthRing(fam, i))
-                     IN /\ polys' = np
+                     IN /\ polys' = np /\ buf' = np
                         /\ index' = IF ~rtree THEN index ELSE IF DEV_AddRebuildsFirst THEN polys ELSE np
                         /\ IF last THEN Ready(<<Rt(mode, <<>>)>>) ELSE UNCHANGED <<mode, hist>>
-                  /\ UNCHANGED fam
-More == mode = "ready" /\ Len(hist) < MaxRoutes
-Log(r)         == hist' = Append(hist, Rt(r, <<>>)) /\ UNCHANGED <<fam, mode>>
-DeepCopy       == More /\ polys' = polys /\ index' = (IF DEV_CopyMisMaps THEN Shift(polys) ELSE polys) /\ Log("deepcopy")
-DeepCopyOrig   == More /\ polys' = polys /\ index' = polys /\ Log("deepcopy_orig")   \* the ORIGINAL after it has been copied (tree reset and restored)
-Pickle         == More /\ polys' = polys /\ index' = (IF DEV_PickleNoRebuild THEN Empty ELSE polys) /\ Log("pickle")
-ReadXml        == More /\ polys' = polys /\ index' = polys /\ Log("xml")
-ReadPb         == More /\ polys' = polys /\ index' = polys /\ Log("pb")
-ReadXmlNet     == More /\ polys' = polys /\ index' = polys /\ Log("xml_net")         \* CommonRoadFileReader.open_lanelet_network
-ReadPbNet      == More /\ polys' = polys /\ index' = polys /\ Log("pb_net")
+                  /\ UNCHANGED <<fam, dirty>>
+(* a route sequence has at most MaxRoutes steps; after a deferred step one more step is always allowed for the networks   *)
+(* built by from_list(0), so that "deferred, then each rebuilding operation" is explored without raising the bound        *)
+More == /\ mode = "ready"
+        /\ \/ Len(hist) < MaxRoutes
+           \/ (Len(hist) = MaxRoutes /\ dirty /\ hist[1] = Rt("from_list", <<0>>))
+LogA(r, a)     == hist' = Append(hist, Rt(r, a)) /\ UNCHANGED <<fam, mode>>
+Log(r)         == LogA(r, <<>>)
+(* operations that REBUILD the index from the bookkeeping dictionary *)
+Rebuilt(b)     == buf' = b /\ index' = b /\ dirty' = FALSE
+DeepCopy       == More /\ polys' = polys /\ buf' = buf /\ dirty' = FALSE
+                       /\ index' = (IF DEV_CopyMisMaps THEN Shift(buf) ELSE buf) /\ Log("deepcopy")
+DeepCopyOrig   == More /\ polys' = polys /\ Rebuilt(buf) /\ Log("deepcopy_orig")   \* the ORIGINAL after it has been copied (tree reset and restored)
+Pickle         == More /\ polys' = polys /\ buf' = buf /\ dirty' = FALSE
+                       /\ index' = (IF DEV_PickleNoRebuild THEN Empty ELSE buf) /\ Log("pickle")
+(* operations that build a NEW network from the lanelets *)
+ReadXml        == More /\ Fresh(polys) /\ Log("xml")
+ReadPb         == More /\ Fresh(polys) /\ Log("pb")
+ReadXmlNet     == More /\ Fresh(polys) /\ Log("xml_net")         \* CommonRoadFileReader.open_lanelet_network
+ReadPbNet      == More /\ Fresh(polys) /\ Log("pb_net")
 FromNetwork(c) == /\ More
                   /\ LET keep == {i \in DOMAIN polys : ShapeRel(polys[i], Cuts[c], FALSE) = "T"} IN
-                     keep # {} /\ polys' = Restrict(polys, keep) /\ index' = polys'
-                  /\ hist' = Append(hist, Rt("from_network", <<c>>)) /\ UNCHANGED <<fam, mode>>
+                     keep # {} /\ Fresh(Restrict(polys, keep))
+                  /\ LogA("from_network", <<c>>)
 Remove(i)      == /\ More /\ i \in DOMAIN polys /\ Cardinality(DOMAIN polys) >= 2
                   /\ polys' = Restrict(polys, DOMAIN polys \ {i})
-                  /\ index' = IF DEV_RemoveNoRebuild THEN index ELSE polys'
-                  /\ hist' = Append(hist, Rt("remove", <<i>>)) /\ UNCHANGED <<fam, mode>>
+                  /\ buf' = Restrict(buf, DOMAIN buf \ {i}) /\ dirty' = FALSE
+                  /\ index' = IF DEV_RemoveNoRebuild THEN index ELSE buf'
+                  /\ LogA("remove", <<i>>)
 Motion(m)      == /\ More /\ polys' = MoveFn(m, polys)
-                  /\ index' = IF DEV_MoveNoRebuild THEN index ELSE polys'
-                  /\ hist' = Append(hist, Rt("translate_rotate", m)) /\ UNCHANGED <<fam, mode>>
+                  /\ buf' = Over(buf, polys') /\ dirty' = FALSE          \* the entries of the current lanelets are replaced
+                  /\ index' = IF DEV_MoveNoRebuild THEN index ELSE buf'
+                  /\ LogA("translate_rotate", m)
+(* the extra lanelet: add_lanelet(x) / add_lanelet(x, rtree=False) / add_lanelets_from_network(network holding x) *)
+AddExtra(r)    == /\ More /\ ExtraId \notin DOMAIN polys
+                  /\ polys' = Ext(polys, ExtraId, RingOf(Extra)) /\ buf' = Ext(buf, ExtraId, RingOf(Extra))
+                  /\ IF r = 0 THEN index' = index /\ dirty' = TRUE ELSE index' = buf' /\ dirty' = FALSE
+                  /\ LogA("add_extra", <<r>>)
+AddExtraNet    == /\ More /\ ExtraId \notin DOMAIN polys
+                  /\ polys' = Ext(polys, ExtraId, RingOf(Extra)) /\ Rebuilt(Ext(buf, ExtraId, RingOf(Extra)))
+                  /\ Log("add_extra_net")
+(* remove_lanelet(i, rtree=False): gone from the network at once, the index keeps answering for it until the next rebuild *)
+RemoveNoRtree(i) == /\ More /\ i \in DOMAIN polys /\ Cardinality(DOMAIN polys) >= 2
+                    /\ polys' = Restrict(polys, DOMAIN polys \ {i})
+                    /\ buf' = IF DEV_DeferredRemoveKeepsPolygon THEN buf ELSE Restrict(buf, DOMAIN buf \ {i})
+                    /\ index' = index /\ dirty' = TRUE
+                    /\ LogA("remove_nortree", <<i>>)
 Next == \/ \E c \in {0, 1} : FromList(c)
         \/ AddFromNet \/ ViaScenario \/ StartAdd("add_each") \/ StartAdd("add_defer") \/ AddLanelet
         \/ DeepCopy \/ DeepCopyOrig \/ Pickle \/ ReadXml \/ ReadPb \/ ReadXmlNet \/ ReadPbNet
         \/ \E c \in DOMAIN Cuts : FromNetwork(c)
-        \/ \E i \in 11..14 : Remove(i)
+        \/ \E i \in 11..15 : Remove(i)
         \/ \E m \in Motions : Motion(m)
+        \/ \E r \in {0, 1} : AddExtra(r)
+        \/ AddExtraNet
+        \/ \E i \in 11..15 : RemoveNoRtree(i)
 Spec == Init /\ [][Next]_vars
 
 (* ---------------- the contract ---------------- *)
@@ -97,8 +137,14 @@ ProbeShapes == {[k |-> "rect", c |-> <<5, 3>>, l |-> 1, w |-> 1, rot |-> Id],
                 [k |-> "disc", c |-> <<9, 5>>, r |-> 2],
                 [k |-> "disc", c |-> <<4, -3>>, r |-> 4],                                       \* 0.75 r below y = 0
                 [k |-> "poly", v |-> <<<<6, 6>>, <<10, 6>>, <<6, 10>>>>]}
-IndexMirrors == mode = "ready" => index = polys
-QueriesExact == mode = "ready" => LET N == AsNet(polys) IN
+Settled == mode = "ready" /\ ~dirty                  \* no deferred step is pending
+IndexMirrors == Settled => index = polys
+BufMirrors   == mode = "ready" => buf = polys          \* the bookkeeping follows the network at once, deferred or not
+(* band (B3): while deferred steps are pending, the index differs from the truth at most on the lanelets they touched *)
+DirtyOnlyPending == (mode = "ready" /\ dirty) =>
+                       \A i \in (DOMAIN index \cup DOMAIN polys) \ Pending(hist) :
+                          i \in DOMAIN index /\ i \in DOMAIN polys /\ index[i] = polys[i]
+QueriesExact == Settled => LET N == AsNet(polys) IN
                                   /\ \A p \in ProbePts : Lookup(index, p) = ByPosition(N, p)
                                   /\ \A s \in ProbeShapes : LookupShape(index, s) = ByShape(N, s)
 TypeOK == mode \in {"new", "add_each", "add_defer", "ready"} /\ UniqueIds(FamNet(fam))
@@ -251,7 +297,7 @@ ObstacleTable ==
     Ob(39, "setbased", 0, <<DiscS(<<1, 5>>, 2), DiscS(<<3, 5>>, 2), DiscS(<<7, 1>>, 4)>>)>>
 
 (* one FAMILY record per family at its initial state, one ROUTE record per completed route sequence, the SHAPE table once *)
-EmitFamily == PrintT(<<"CASE", ToJson([kind |-> "family", fam |-> fam, lanelets |-> Family(fam), net |-> FamNet(fam),
+EmitFamily == PrintT(<<"CASE", ToJson([kind |-> "family", fam |-> fam, lanelets |-> Family(fam), net |-> FamNet(fam), extra |-> Extra,
                                         points |-> PointGroups(FamNet(fam)), shapes |-> ShapeQueries(FamNet(fam)),
                                         obstacles |-> ObstacleTable, cuts |-> Cuts])>>)
 EmitShapes == \A i \in DOMAIN ShapeTable :       \* (mentions a variable: a constant-level definition would be evaluated, and printed, at every start-up)
